@@ -131,6 +131,23 @@ func (s *Session) Drain(d time.Duration) []string {
 	return seen
 }
 
+// DrainNow collects every line that is already in the output channel, without waiting.
+func (s *Session) DrainNow() {
+	for s.out != nil {
+		select {
+		case l, ok := <-s.out:
+			if !ok {
+				s.Dead = true
+				s.out = nil
+				return
+			}
+			s.Lines = append(s.Lines, l)
+		default:
+			return
+		}
+	}
+}
+
 // Barrier sends isready and waits for readyok.
 func (s *Session) Barrier(timeout time.Duration) ([]string, bool) {
 	if !s.Send("isready", timeout) {
